@@ -8,7 +8,7 @@ from __future__ import annotations
 
 from sa import sx as sxm
 from sa.algebra import Rat
-from sa.facts import positive_atoms
+from sa.facts import positive_atoms, nonneg_atoms
 from sa.match import SpecCtx, match_cases
 from sa.sx import SX, Q, N, CannotDecide
 
@@ -122,6 +122,78 @@ def check_boundary_divisions(model, rep, R='C08.boundary-division'):
             rep.inspect()
 
 
+def check_boundary_tests(model, rep, R='C08.boundary-tests'):
+    """the dead zone's boundary and its floating-point neighbours: every test of the duty cycle in the two laws must
+    compare the SAME two floating-point values (up to abs / sign, which are exact; order tests only - an equality
+    test of a computed denominator is the division guard of C08.boundary-division, not a branch of the partition), otherwise two tests that agree
+    over the reals (`|D| <= i0/imax` and `|D*imax| <= i0`) disagree at the float next to the boundary and the laws
+    stop being a partition (a duty cycle is dead for the torque and live for the current, or falls into the branch
+    of the opposite sign).  Decided on the two operand terms of each evaluated comparison, separately."""
+    import ast
+    from collections import Counter
+    found = []
+    for meth in ('compute_torque', 'compute_electric_current'):
+        m = model.member('DCMotor', meth)
+        sx = SX(model)
+        sx.cmp_sides = []
+        pos = positive_atoms(sx, 'DCMotor')
+        sxm.POSITIVE_ATOMS.clear()
+        sxm.POSITIVE_ATOMS.update(pos)
+        try:
+            sx.run(m.node, m.module, 'DCMotor')
+        except CannotDecide as e:
+            rep.cannot(R, f'DCMotor.{meth}', str(e), m.loc)
+            continue
+        ctx = sx.ctx
+        spec = SpecCtx(sx, 'DCMotor', symbols=SYMS)
+        atomD = next(iter(spec.term('D').atoms()))
+
+        def canon(t):
+            t = ctx.reduce(t)
+            for sign in (1, -1):
+                u = t if sign == 1 else -t
+                if u.d.is_const() and len(u.n.t) == 1:
+                    ats = list(u.atoms())
+                    if len(ats) == 1 and ats[0] in ctx.defs and ctx.defs[ats[0]][0] == 'abs' and ctx.eq(u, Rat.atom(ats[0])):
+                        t = ctx.reduce(ctx.defs[ats[0]][1][0])
+                        break
+            a, b = ctx.show(t), ctx.show(ctx.reduce(-t))
+            return min(a, b)
+
+        def mentions(t):
+            todo, seen = list(t.atoms()), set()
+            while todo:
+                a = todo.pop()
+                if a in seen:
+                    continue
+                seen.add(a)
+                if a == atomD:
+                    return True
+                if a in ctx.defs:
+                    for x in ctx.defs[a][1]:
+                        if hasattr(x, 'atoms'):
+                            todo.extend(x.atoms())
+            return False
+        seen_nodes = set()
+        for node, op, l, r in sx.cmp_sides:
+            if id(node) in seen_nodes or op in ('Eq', 'NotEq') or not (mentions(l) or mentions(r)):
+                continue
+            seen_nodes.add(id(node))
+            found.append((meth, m, node, frozenset((canon(l), canon(r)))))
+    rep.inspect(len(found))
+    if not found:
+        rep.violation(R, 'DCMotor', 'no test of the duty cycle found in the two laws')
+        return
+    ref = Counter(k for _, _, _, k in found).most_common(1)[0][0]
+    for meth, m, node, k in found:
+        src = ast.unparse(node)[:60]
+        rep.decide(k == ref, R, f'DCMotor.{meth}[test `{src}`]',
+                   f'this test compares {sorted(k)} while the other duty-cycle tests of the laws compare {sorted(ref)}: equal over the '
+                   f'reals, different floating-point expressions - at the float next to the dead-zone boundary the tests disagree',
+                   loc=f'{m.module}:{node.lineno}')
+    rep.require(R, 4, 'two duty-cycle tests in each law')
+
+
 def _vanishes_on(ctx, den, d) -> bool:
     """den == 0 wherever d == 0: solve d's numerator for an atom it is linear in and substitute into den"""
     from sa.algebra import Rat
@@ -162,6 +234,8 @@ def check(model, rep):
     pos = positive_atoms(sx, 'DCMotor')
     sxm.POSITIVE_ATOMS.clear()
     sxm.POSITIVE_ATOMS.update(pos)
+    sxm.NONNEG_ATOMS.clear()
+    sxm.NONNEG_ATOMS.update(nonneg_atoms(sx, 'DCMotor') - pos)
     ctx = sx.ctx
     spec = SpecCtx(sx, 'DCMotor', symbols=SYMS)
     show = sx.show
@@ -273,6 +347,8 @@ def check(model, rep):
         rep.require('C08.mirror', 2)
         rep.require('C08.continuity', 2)
     check_boundary_divisions(model, rep)
+    check_boundary_tests(model, rep)
+    sxm.NONNEG_ATOMS.clear()
     rep.analysed['methods'] = ['DCMotor.compute_torque', 'DCMotor.compute_electric_current', 'DCMotor.__init__']
     rep.analysed['positive_facts_from_ctor'] = sorted(pos)
     rep.assume('quantity operators and comparisons are unit-blind and dimensionally sound (decided by C05/C06)')
